@@ -115,6 +115,7 @@ class Agg:
         self.samples = []
         self.inconclusive = 0
         self.saturated = False
+        self.harness_errors = []
 
     def add(self, idx, plan, out, keep_digest=False, keep_sample=False):
         self.runs += 1
@@ -166,6 +167,7 @@ class Agg:
                 self.samples.append(s)
         self.inconclusive += o.inconclusive
         self.saturated |= o.saturated
+        self.harness_errors.extend(o.harness_errors[:5])
 
 
 # ----------------------------------------------------------------------------------------------- check interface
@@ -227,8 +229,15 @@ def _run_chunk(start, count, keep_digest, chunk_wall, deadline):
             if time.time() > deadline:
                 break
             rs = run_seed(seed, check.ID, i)
-            plan = check.gen_plan(random.Random(rs), tier)
-            out = check.execute(plan)
+            try:
+                plan = check.gen_plan(random.Random(rs), tier)
+                out = check.execute(plan)
+            except Exception:
+                # an exception of the harness itself is never a verdict: it is reported as HARNESS-ERROR by the driver
+                agg.harness_errors.append('run %d: %s' % (i, traceback.format_exc()[-1500:]))
+                if len(agg.harness_errors) > 3:
+                    break
+                continue
             agg.add(i, plan, out, keep_digest=keep_digest, keep_sample=True)
             if out.violation is not None:
                 break
@@ -569,11 +578,13 @@ def drive(check, tier, seed, budget_s=None, workers=None, log=print):
     log('%s: %d runs (+%d enumerated) in %.1fs, %d distinct non-trivial, %d violation(s), %d known finding(s)'
         % (check.ID, agg.runs, getattr(agg, 'enumerated', 0), agg.wall, len(agg.distinct), len(confirmed), len(seen_known)))
     log('fired: ' + json.dumps(dict(sorted(agg.stats.items()))))
+    for he in agg.harness_errors[:3]:
+        log('HARNESS-ERROR exception inside the harness (not a verdict): ' + he)
     if confirmed:
         for path, v, _ in confirmed:
             log('violation kind=%s detail=%s' % (v['kind'], json.dumps(v['detail'], default=repr)[:1500]))
             log('VIOLATION property=%s replay=%s' % (check.ID, path))
         return 1
-    if reported or canary != 'pass':
+    if reported or canary != 'pass' or agg.harness_errors:
         return 2
     return 0
